@@ -329,6 +329,7 @@ def check(ctx):
         rep.cur_config = cfgname
         from . import common as _cm
         _cm.check_helpers(ctx, f, rep, 'C16-R0', {'choose_members', 'backlog'})
+        _cm.check_state_fields(f, rep, 'C16-R0', ('custom_broadcasts',))
         r1_acceptance(ctx, f, rep)
         r2_receive_loop(ctx, f, rep)
         r3_gating(ctx, f, rep)
